@@ -358,8 +358,9 @@ pub enum Consumer {
     BufScripted,
 }
 
-pub const CONSUMER_MENU: [usize; 12] = [1 << 20, 1, 2, 3, 7, 64, 511, 512, 513, 8191, 8192, 8193];
-pub const CONSUMER_MENU_SMALL: [usize; 4] = [1 << 16, 1, 2, 7];
+/// (0 = a read into an empty buffer: legal, answers Ok(0), and is not the end of the stream)
+pub const CONSUMER_MENU: [usize; 13] = [1 << 20, 1, 2, 3, 7, 64, 511, 512, 513, 8191, 8192, 8193, 0];
+pub const CONSUMER_MENU_SMALL: [usize; 5] = [1 << 16, 1, 2, 7, 0];
 
 #[derive(Clone, Debug, PartialEq, Eq, Hash)]
 pub struct Consumed {
@@ -469,6 +470,23 @@ pub fn consume<R: Read>(
                 }
                 let c = script.choose(Kind::Consumer, menu.len() as u16) as usize;
                 let sz = menu[c];
+                if sz == 0 {
+                    // an empty buffer: nothing can be delivered, and nothing may change
+                    match r.read(&mut []) {
+                        Ok(_) => continue,
+                        Err(e) if e.kind() == io::ErrorKind::Interrupted && interrupts < 64 => {
+                            interrupts += 1;
+                            continue;
+                        }
+                        Err(e) => {
+                            return Consumed {
+                                out,
+                                err: Some(e.to_string()),
+                                calls,
+                            }
+                        }
+                    }
+                }
                 match r.read(&mut buf[..sz]) {
                     Ok(0) => {
                         return Consumed {
